@@ -234,6 +234,23 @@ CHECKS["C16"] = dict(
     note="Runs killed for exceeding the 64 MiB output limit (bin/elf images of a sparse program) are not judged. Explicit repetition "
          "counts of 2^31 (.repeat, .data_fill) are not in the menu.")
 
+CHECKS["C17"] = dict(
+    level="model_checking", design_ref="DESIGN.md 4/C17",
+    technique="bounded exhaustive enumeration of damaged object files (every truncation point, every byte / aligned field x a menu of "
+              "extremes) and of interactive command sessions (all sequences up to depth 2-3 over a command x argument menu) through the "
+              "sanitizer build of the real naken_util, one process per case",
+    text="Seed files written by naken_asm itself in every writable format (hex, srec, elf, wdc, uf2, amiga, macho, bin; three programs) "
+         "plus a hand-written TI-TXT and empty files. Per seed: truncation at every offset; every byte -> {00, 7f, 80, ff}; every character "
+         "of the text formats -> 9 characters; every aligned 32-bit word, little and big endian, -> {0, 1, old-1, old+1, 0x7fffffff, "
+         "0x80000000, 0xffffffff, file size, file size+1}; every aligned 16-bit half -> 5 values; appended garbage. Each variant x CPU "
+         "selection {none, msp430, avr8, mips, 68000} x mode {-disasm, a scripted info/symbols/print/disasm/registers session, "
+         "-disasm_range}. Sessions: every single command of a 31-command x 18-argument menu, every pair (quick: 5-argument menu, "
+         "thorough: 10-argument menu), every triple with a fixed argument, after `speed 0` and ended by `quit`, on a loaded program and "
+         "without a file; option menus; `disasm` at the top of memory for all 68 CPUs. Quick 85 k runs, thorough 492 k. Oracle: exit "
+         "status 0 or 1, no signal, no AddressSanitizer / UBSan report, at most 2 s of CPU time and 64 MiB of output.",
+    note="Free-running simulations (run / call after a non-zero speed) and -run on damaged files are not posed: a simulated program "
+         "that loops is not a defect of naken_util.")
+
 CHECKS["C18"] = dict(
     level="model_checking", design_ref="DESIGN.md 4/C18",
     technique="exhaustive enumeration of listing programs per CPU (every corpus / decoder-derived instruction in groups of four, plus data-between-code, "
